@@ -40,6 +40,7 @@ def main():
                     choices=['quick', 'thorough'])
     ap.add_argument('--replay')
     ap.add_argument('--scenario')
+    ap.add_argument('--digests', type=int, help='print one digest line per run index in [0, N) of --property (determinism self-test)')
     ap.add_argument('--mkreplay', help='execute --scenario and store the first violation as a replay file at this path')
     a = ap.parse_args()
 
@@ -84,6 +85,33 @@ def main():
 
     if not a.property:
         ap.error('--property required')
+
+    if a.digests:
+        import hashlib
+        import signal
+        L = lib.load()
+        mod = runner.prop_module(a.property.upper())
+        signal.signal(signal.SIGVTALRM, runner._alarm)
+        master = int(os.environ.get('VERIF_SEED', '1'))
+        start = int(os.environ.get('VERIF_START', '0'))
+
+        for i in range(start, start + a.digests):
+            scn = runner.make_scenario(mod, a.tier, master, i)
+            out, err = runner.execute_guarded(mod, scn, L)
+            h = hashlib.sha256(json.dumps(scn, sort_keys=True).encode())
+
+            if err is not None:
+                print(i, h.hexdigest()[:16], 'HARNESS', err[:80])
+                continue
+
+            sig = sorted('%s/%s' % (v['oracle'], v['detail'])
+                         for v in out.violations)
+            st = hashlib.sha256(repr(sorted(out.states)).encode())
+            print(i, h.hexdigest()[:16], out.digest[:16] if out.digest
+                  else None, st.hexdigest()[:8], out.evals, out.nontrivial,
+                  out.discarded, sig, sorted(out.probes.items()))
+
+        return 0
 
     return runner.run_check(a.property.upper(), a.tier)
 
